@@ -62,6 +62,9 @@ pub fn place(mem: &mut MemoryAreas, addr: u16, byte: u8) -> bool {
     0xc000..=0xcfff => mem.work_ram[addr as usize & 0xfff] = byte,
     0xd000..=0xdfff => mem.work_ram[0x1000 + (addr as usize & 0xfff)] = byte,
     0xff80..=0xfffe => mem.high_ram[addr as usize & 0x7f] = byte,
+    // operand bytes of an instruction whose first byte is the last of ROM / of high RAM
+    0x8000..=0x9fff => mem.video_ram[addr as usize & 0x1fff] = byte,
+    0xffff => mem.io.interrupt_mask = byte & 0x1f,
     _ => return false,
   }
   true
